@@ -168,11 +168,84 @@ def exit_rule(ctx, R):
             "the merge loop's test is not 'v and (v.equality or v.slack() < Z and not v.active)' with -1e-6 <= Z <= 0: %s" % detail)
 
 
+def _foreign_slot_index(f):
+    """(store node, index name, description of the foreign sequence) if a store `L[idx] = ...` into the inactive list (or a
+    local alias of it) uses an index derived from `enumerate(X)` / `range(len(X))` for an X that is not that list."""
+    selfn = f.params[0] if f.params else "self"
+    L = {"%s.inactive" % selfn}
+    for n in walk_local(f.node):
+        if isinstance(n, ast.Assign) and len(n.targets) == 1 and isinstance(n.targets[0], ast.Name) and ntext(n.value) in L:
+            L.add(n.targets[0].id)
+    lens = set()  # names holding len(L)
+    for n in walk_local(f.node):
+        if isinstance(n, ast.Assign) and len(n.targets) == 1 and isinstance(n.targets[0], ast.Name) and isinstance(n.value, ast.Call) and ntext(n.value.func) == "len" and n.value.args and ntext(n.value.args[0]) in L:
+            lens.add(n.targets[0].id)
+
+    def foreign_source(e):
+        """Description of the sequence if e yields positions of something other than L."""
+        if isinstance(e, ast.Call) and ntext(e.func) == "enumerate" and e.args and ntext(e.args[0]) not in L:
+            return "`%s`" % ntext(e.args[0])[:50]
+        if isinstance(e, ast.Call) and ntext(e.func) == "range" and e.args:
+            a = e.args[-1] if len(e.args) <= 2 else e.args[1]
+            if isinstance(a, ast.Call) and ntext(a.func) == "len" and a.args and ntext(a.args[0]) not in L:
+                return "`%s`" % ntext(a.args[0])[:50]
+        return None
+
+    taint = {}
+    changed = True
+    rounds = 0
+    while changed and rounds < 10:
+        changed = False
+        rounds += 1
+        for n in ast.walk(f.node):
+            src = None
+            tgts = []
+            if isinstance(n, ast.Assign):
+                src, tgts = n.value, n.targets
+            elif isinstance(n, (ast.For, ast.comprehension)):
+                src, tgts = n.iter, [n.target]
+            elif isinstance(n, ast.NamedExpr):
+                src, tgts = n.value, [n.target]
+            if src is None:
+                continue
+            why = foreign_source(src)
+            if why is None:
+                for x in ast.walk(src):
+                    if isinstance(x, ast.Name) and x.id in taint:
+                        why = taint[x.id]
+                        break
+                    fs = foreign_source(x) if isinstance(x, ast.Call) else None
+                    if fs:
+                        why = fs
+                        break
+            if why is None:
+                continue
+            for t in tgts:
+                for x in ast.walk(t):
+                    if isinstance(x, ast.Name) and isinstance(x.ctx, ast.Store) and x.id not in taint and x.id not in L:
+                        taint[x.id] = why
+                        changed = True
+    for n in walk_local(f.node):
+        if isinstance(n, ast.Assign):
+            for t in n.targets:
+                if isinstance(t, ast.Subscript) and ntext(t.value) in L:
+                    for x in ast.walk(t.slice):
+                        if isinstance(x, ast.Name) and x.id in taint:
+                            return n, x.id, taint[x.id]
+    return None
+
+
 @rule("VPSC.ARGMIN")
 def argmin(ctx, R):
     P = ctx.P
     f = P.func(S + ".mostViolated")
     R.saw(f)
+    # whatever the shape of the scan: the slot of the inactive list that is overwritten must be addressed by a position *in
+    # that list*.  An index that comes from enumerating (or counting) another sequence - a filtered view, a sorted copy -
+    # addresses some other constraint's slot: a live constraint is dropped and the taken one stays queued.
+    slot = _foreign_slot_index(f)
+    if slot is not None:
+        R.bad("VPSC.ARGMIN", f.qual + "|slot index", where(f, slot[0]), "`%s`: the index `%s` is a position in %s, not in the inactive list the slot belongs to: the wrong constraint is removed from the list" % (ntext(slot[0])[:60], slot[1], slot[2]))
     loops = [n for n in f.node.body if isinstance(n, (ast.For, ast.While))]
     if len(loops) != 1 or not isinstance(loops[0], ast.For):
         R.undecided("VPSC.ARGMIN", f.qual + "|scan", where(f), "mostViolated is not a single scan over the inactive list: the arg-min recogniser does not apply")
